@@ -1,5 +1,8 @@
 from ..framework import Spec
-from ..ties_sys import sys_tie, cli_tie
+from ..ties_sys import sys_tie, cli_tie, scenario_tie
+from ..scenarios import gen_cond_scenario
 
 SPEC = Spec(pid='C03', coq_needs=['Base', 'Layout', 'LayoutProofs', 'Program', 'Properties/C03'],
-            ties=[sys_tie('C03'), cli_tie('C03')])
+            ties=[sys_tie('C03'), cli_tie('C03'),
+                  # muting decided inside nested conditionals: muted bytes read as fill
+                  scenario_tie('cond_programs', gen_cond_scenario, 150, 3000)])
